@@ -395,7 +395,17 @@ impl<'tcx> Cx<'tcx> {
                 )
             }
             Rvalue::UnaryOp(op, a) => format!("[\"un\",\"{:?}\",{}]", op, self.operand_json(body, env, a)),
-            Rvalue::Discriminant(p) => format!("[\"discr\",{}]", self.place_json(body, p)),
+            Rvalue::Discriminant(p) => {
+                let pt = p.ty(body, tcx).ty;
+                format!(
+                    "[\"discr\",{},{}]",
+                    self.place_json(body, p),
+                    match self.adt_of(pt) {
+                        Some(a) => esc(&a),
+                        None => "null".into(),
+                    }
+                )
+            }
             Rvalue::CopyForDeref(p) => format!("[\"use\",[\"c\",{}]]", self.place_json(body, p)),
             Rvalue::Aggregate(kind, ops) => {
                 let os: Vec<String> = ops.iter().map(|o| self.operand_json(body, env, o)).collect();
